@@ -1,7 +1,47 @@
-(* placeholder until the codec theorems land *)
+(* C04 - the client completes login only on the server's genuine response.  PARTIAL (DESIGN.md C04):
+   proved here: (i) the acceptance characterisation - the exact conjunction the client checks, with every
+   component of the response other than the MAC inside the transcript that the MAC covers; (ii) a response
+   altered in the MAC field only is rejected, unconditionally; (iii, in C06.v) a response carrying another
+   server key, or identities other than the sealed ones, is rejected up to an exhibited HMAC collision.
+   NOT proved: that no MAC value for an altered transcript can be produced without the keys (unforgeability
+   is not a collision statement); that part is carried by the exhaustive tamper battery. *)
 From Coq Require Import List.
-From OKE Require Import BytesLemmas.
-Theorem C04_placeholder : forall l x y px py r1 r2,
-  Bytes.lenprefix l x = Some px -> Bytes.lenprefix l y = Some py -> px ++ r1 = py ++ r2 -> x = y /\ r1 = r2.
-Proof. exact lenprefix_inj. Qed.
-Print Assumptions C04_placeholder.
+From OKE Require Import Bytes Suite Generated Hkdf Voprf Messages Envelope TripleDH Opaque ClientAccept.
+
+Theorem C04_accept_characterisation_partial :
+  forall E Sc Pk Sk (CS : Suite E Sc Pk Sk) st pw r ctx ids ksf fin sk ek spk dbg,
+    client_login_finish CS st pw r ctx ids ksf = Ok (fin, sk, ek, spk, dbg) ->
+    exists rp mk env kp u s pre km2 km3 hs,
+      o_eqb (oprf CS) (cq_blinded (cl_request st)) (cr_eval r) = false /\
+      get_password_derived_key CS pw (cl_blind st) (cr_eval r) ksf = Ok rp /\
+      hkdf_expand (hash CS) rp STR_MASKING_KEY (h_len (hash CS)) = Some mk /\
+      unmask_response CS mk (cr_masking_nonce r) (cr_masked r) = Ok (spk, env) /\
+      envelope_open CS env rp spk ids = Ok (kp, ek, u, s) /\
+      preamble (match ctx with Some c => c | None => nil end) u (client_request_bytes CS st) s (client_l2 CS r)
+               (k2_nonce (cr_ke2 r)) (k_ser_pk (ke CS) (k2_server_e_pk (cr_ke2 r))) = Ok pre /\
+      derive_3dh_keys CS (k_dh (ke CS) (k2_server_e_pk (cr_ke2 r)) (k1s_client_e_sk (cl_ke1_state st)))
+                         (k_dh (ke CS) spk (k1s_client_e_sk (cl_ke1_state st)))
+                         (k_dh (ke CS) (k2_server_e_pk (cr_ke2 r)) (kp_sk kp))
+                         (h_hash (hash CS) pre) = Ok (sk, km2, km3, hs) /\
+      k2_mac (cr_ke2 r) = h_hmac (hash CS) km2 (h_hash (hash CS) pre) /\
+      cf_mac fin = h_hmac (hash CS) km3 (h_hash (hash CS) (pre ++ k2_mac (cr_ke2 r))).
+Proof. exact @client_accepts_iff. Qed.
+Print Assumptions C04_accept_characterisation_partial.
+
+Theorem C04_transcript_covers_response_partial :
+  forall E Sc Pk Sk (CS : Suite E Sc Pk Sk) context u req s (r : CredentialResponse E Pk) pre,
+    preamble context u req s (client_l2 CS r) (k2_nonce (cr_ke2 r)) (k_ser_pk (ke CS) (k2_server_e_pk (cr_ke2 r))) = Ok pre ->
+    exists c, lenprefix 2 context = Some c /\
+      pre = STR_CONTEXT ++ c ++ u ++ req ++ s ++
+            (o_ser_e (oprf CS) (cr_eval r) ++ cr_masking_nonce r ++ masked_response_serialize (cr_masked r)) ++
+            k2_nonce (cr_ke2 r) ++ k_ser_pk (ke CS) (k2_server_e_pk (cr_ke2 r)).
+Proof. exact @preamble_covers_response. Qed.
+Print Assumptions C04_transcript_covers_response_partial.
+
+Theorem C04_mac_only_altered_partial :
+  forall E Sc Pk Sk (CS : Suite E Sc Pk Sk) st pw r ctx ids ksf out mac',
+    client_login_finish CS st pw r ctx ids ksf = Ok out ->
+    mac' <> k2_mac (cr_ke2 r) ->
+    client_login_finish CS st pw (with_mac r mac') ctx ids ksf = Err EInvalidLogin.
+Proof. exact @mac_only_altered_rejected. Qed.
+Print Assumptions C04_mac_only_altered_partial.
